@@ -1370,12 +1370,11 @@ PPL::Grid::add_recycled_grid_generators(Grid_Generator_System& gs) {
     return;
   }
 
-  if (!marked_empty()) {
+  // Updating the generators may discover that the grid is empty.
+  if (!marked_empty()
+      && (generators_are_up_to_date() || update_generators())) {
     // The grid contains at least one point.
 
-    if (!generators_are_up_to_date()) {
-      update_generators();
-    }
     normalize_divisors(gs, gen_sys);
 
     gen_sys.insert(gs, Recycle_Input());
